@@ -42,7 +42,7 @@ var importMap = map[string]string{
 
 // Census counts what was rewritten.
 type Census struct {
-	Files, Go, Select, Recv, Send, MakeChan, ChanType, Close, LenCap, MapRange, ChanRange, Imports int
+	Files, Go, Select, Recv, Send, MakeChan, ChanType, Close, LenCap, MapRange, ChanRange, Imports, Seams int
 }
 
 // Result of a transformation.
@@ -128,6 +128,9 @@ func Transform(goBin, repoDir, outDir, inpkgDir string, extra map[string]string)
 	overlay := map[string]string{}
 	for i, af := range files {
 		t := &xf{fset: fset, info: info, file: af, fname: names[i]}
+		if inpkgDir != "" {
+			res.Census.Seams += injectSeams(af)
+		}
 		if err := t.run(); err != nil {
 			return nil, fmt.Errorf("%s: %v", names[i], err)
 		}
@@ -178,6 +181,31 @@ func Transform(goBin, repoDir, outDir, inpkgDir string, extra map[string]string)
 		return nil, err
 	}
 	return res, nil
+}
+
+// injectSeams gives the harness a way in where the library picks an operating-system facility by itself:
+// newBatchConn(conn) (recvmmsg/sendmmsg wrapper, chosen when conn is a real UDP socket) first asks the harness
+// (vfBatchConnHook, defined in inpkg) for a virtual batch connection. In the transformed copy only.
+func injectSeams(af *ast.File) int {
+	n := 0
+	for _, d := range af.Decls {
+		fd, ok := d.(*ast.FuncDecl)
+		if !ok || fd.Recv != nil || fd.Body == nil || fd.Name.Name != "newBatchConn" {
+			continue
+		}
+		ps := fd.Type.Params
+		if ps == nil || len(ps.List) != 1 || len(ps.List[0].Names) != 1 || fd.Type.Results == nil || len(fd.Type.Results.List) != 1 {
+			continue
+		}
+		hook := &ast.IfStmt{
+			Init: &ast.AssignStmt{Lhs: []ast.Expr{id("vfb__")}, Tok: token.DEFINE, Rhs: []ast.Expr{call(id("vfBatchConnHook"), id(ps.List[0].Names[0].Name))}},
+			Cond: &ast.BinaryExpr{X: id("vfb__"), Op: token.NEQ, Y: id("nil")},
+			Body: &ast.BlockStmt{List: []ast.Stmt{&ast.ReturnStmt{Results: []ast.Expr{id("vfb__")}}}},
+		}
+		fd.Body.List = append([]ast.Stmt{hook}, fd.Body.List...)
+		n++
+	}
+	return n
 }
 
 // escapes is the post-pass: nothing may escape control.
